@@ -232,6 +232,12 @@ class Plan:
                     out.append(f"{vis}fn {name}(x: Option<{arg}>) -> Option<{arg}> {{ x }}")
                 elif m.overrides is None or name in m.overrides:
                     out.append(f'{vis}fn {name}() -> &\'static str {{ "{tag}" }}')
+            elif kind == "cfgdup":
+                # the same item once per `cfg` alternative: legal Rust (the inactive one is dropped before name resolution); seeded change C14i
+                out.append(f"#[cfg(any())] {vis}fn {name}() -> u8 {{ 0 }} #[cfg(not(any()))] {vis}fn {name}() -> u8 {{ {1 + bi % 100} }}")
+            elif kind == "cfgoff":
+                # an item that the current build configures out (`cfg(any())` is always false), with its attributes: seeded change C17i
+                out.append(f"#[cfg(any())] #[doc = \" off\"] {vis}const {name}: u8 = 1;")
             elif kind == "gfn":
                 # a generic method whose const parameter is declared BEFORE its type parameter (seeded changes C03h / C17h forwarded the
                 # method's generics explicitly, types first)
@@ -278,6 +284,10 @@ class Plan:
                 items.append(f"fn {name}(&self) -> &'static str" + (f' {{ "dflt.{name}" }}' if has_default else ";"))
             elif kind == "ltfn":
                 items.append(f"fn {name}(x: {self.lt_ty}) -> {self.lt_ty};")
+            elif kind == "cfgdup":
+                items.append(f"fn {name}() -> u8;")
+            elif kind == "cfgoff":
+                items.append(f"#[cfg(any())] const {name}: u8;")
             elif kind == "gfn":
                 items.append(f"fn {name}<const GN: usize, GX: Clone>(x: GX) -> [GX; GN];")
             elif kind == "afn":
@@ -724,6 +734,12 @@ class PlanGen:
                 d_ = self.pick(simple)
                 obj = "dyn " + d_.name + "<" + ", ".join(f"{a_} = {self.pick(MARKERS)}" for a_ in d_.assocs) + ">"
                 m.extra.append((("tp", r.randrange(nparams)), f"PlainD<{obj}>"))
+            if extra_bounds and simple and r.random() < 0.1:
+                # … and a non-dispatch predicate whose BOUNDED type contains such a trait object (`Box<dyn D0<G = GB>>: Plain1`): the binding
+                # inside it bounds nothing of the block (defect D55, repaired: the visitor descended into the bounded type)
+                d_ = self.pick(simple)
+                obj = "dyn " + d_.name + "<" + ", ".join(f"{a_} = {self.pick(MARKERS)}" for a_ in d_.assocs) + ">"
+                m.extra.append((leaf(f"Box<{obj}>"), self.pick(["Plain0", "Plain1"])))
             has_dflt = [n for _, n, d in plan.items if d]
             m.overrides = {n for n in has_dflt if r.random() < 0.5}
             members.append(m)
